@@ -158,6 +158,13 @@ def _parse_composition_keywords(
     )
 
 
+def _not_a_declared_name(invented_name: str, context: ParsingContext) -> str:
+    """A name invented for an inline schema must not be the name of a declared schema: the two would be merged."""
+    while invented_name in context.raw_spec_schemas:
+        invented_name = f"{invented_name}Inline"
+    return invented_name
+
+
 def _parse_properties(
     properties_node: Mapping[str, Any],
     parent_schema_name: str | None,
@@ -196,7 +203,9 @@ def _parse_properties(
 
             if is_inline_object_node and parent_schema_name:
                 # Promote inline object to its own schema
-                promoted_schema_name = f"{parent_schema_name}{NameSanitizer.sanitize_class_name(prop_name)}"
+                promoted_schema_name = _not_a_declared_name(
+                    f"{parent_schema_name}{NameSanitizer.sanitize_class_name(prop_name)}", context
+                )
                 promoted_ir_schema = _parse_schema(
                     promoted_schema_name,
                     prop_schema_node,
@@ -311,6 +320,7 @@ def _parse_properties(
                         prop_context_name = f"{parent_schema_name}{sanitized_prop_name}"
                 else:
                     prop_context_name = NameSanitizer.sanitize_class_name(prop_name)
+                prop_context_name = _not_a_declared_name(prop_context_name, context)
 
                 # For simple primitives and simple arrays, avoid creating separate schemas
                 if (is_simple_primitive or is_simple_array) and prop_context_name in context.parsed_schemas:
